@@ -2,6 +2,10 @@ import P0f.Model.Wirefmt
 import P0f.Model.Match
 import P0f.Model.Find
 import P0f.Model.Uptime
+import P0f.Model.TcpOptions
+import P0f.Model.SigParse
+import P0f.Model.Wire
+import P0f.Model.Render
 /-
   Line-protocol driver: one tab-separated op per input line, one answer line per op.
   Every op is answered by the *model* definitions that the theorems in `P0f/Props` are about.
@@ -29,6 +33,28 @@ def pktSigOf (f : Array String) (o : Nat) : PktSig :=
     wscale := parseNat f[o+6]!, ts := parseNat f[o+7]!, eolPad := parseNat f[o+8]!,
     hdrLen := parseNat f[o+9]!, hasPayload := parseBool f[o+10]!,
     quirks := QSet.ofMask (parseNat f[o+11]!), synMss := parseNat f[o+12]! }
+
+def optNatStr : Option Nat → String
+  | none => "-1" | some n => toString n
+def optBoolStr : Option Bool → String
+  | none => "-1" | some true => "1" | some false => "0"
+def wtypeStr : WinType → String
+  | .normal => "0" | .any => "1" | .mod => "2" | .mss => "3" | .mtu => "4"
+
+def sigStr (s : Sig) : String :=
+  " ".intercalate [optNatStr s.ipVer, toString s.olen, toString s.ttl, if s.badTtl then "1" else "0",
+    wtypeStr s.wtype, if s.wtype == .any then "-1" else toString s.wsize, optNatStr s.scale,
+    "[" ++ natList s.layout ++ "]", optNatStr s.mss, toString s.eolPad, optBoolStr s.payClass,
+    toString s.quirks.toMask]
+
+def pktStr (p : PktL) (synMss : Nat) : String :=
+  let k := pktSigOfPkt p synMss
+  let m := windowMult k.wIn
+  s!"ip v={p.ip.version} ttl={p.ip.ttl} tos={p.ip.tos} olen={p.ip.olen} hl={p.ip.hdrLen} frag={if p.ip.isFragment then 1 else 0} q={p.ip.quirks.toMask} src={hexOfBytes p.ip.src} dst={hexOfBytes p.ip.dst} | " ++
+  s!"tcp type={p.tcp.type} sp={p.tcp.sport} dp={p.tcp.dport} win={p.tcp.window} seq={p.tcp.seq} hl={p.tcp.hdrLen} pay={hexOfBytes p.tcp.payload} q={p.tcp.quirks.toMask} | " ++
+  s!"opt [{natList p.tcp.opts.layout}] mss={p.tcp.opts.mss} ws={p.tcp.opts.ws} ts={p.tcp.opts.ts} pad={p.tcp.opts.eolPad} q={p.tcp.opts.quirks.toMask} | " ++
+  s!"sig hdr={k.hdrLen} pay={if k.hasPayload then 1 else 0} syn={k.synMss} q={k.quirks.toMask} mult={m.1},{if m.2 then 1 else 0} | " ++
+  s!"gate sf={if shouldFingerprint p.ip.isFragment p.tcp.type then 1 else 0} tcp={if validTcp p.ip.isFragment p.tcp.type then 1 else 0} up={if validUptime p.ip.isFragment p.tcp.type then 1 else 0}"
 
 def handle (f : Array String) : String :=
   match f[0]! with
@@ -68,6 +94,59 @@ def handle (f : Array String) : String :=
     | .outOfDomain => "outofdomain"
     | .verdict n d fr mi da => s!"v {n}/{d} {fr} {mi} {da}"
   | "roundfreq" => toString (roundFrequency (parseNat f[1]!))
+  | "opts" =>
+    let o := parseOpts (parseHex f[1]!) (parseBool f[2]!)
+    s!"{natList o.layout} q={o.quirks.toMask} mss={o.mss} ws={o.ws} ts={o.ts} pad={o.eolPad} dump={String.ofList (dumpLayout o.layout o.eolPad)} quirks={String.ofList (dumpQuirks o.quirks)}"
+  | "sigtcp" =>
+    match parseTcpSig (parseHexText f[1]!) with
+    | none => "ERR field"
+    | some s => sigStr s
+  | "sigmtu" =>
+    match parseMtuSig (parseHexText f[1]!) with
+    | none => "ERR field"
+    | some m => toString m
+  | "label" =>
+    match parseLabel (parseHexText f[1]!) with
+    | none => "ERR field"
+    | some l => s!"{if l.generic then 1 else 0} {hexOfText l.osClass} {hexOfText l.name} {hexOfText l.flavor} dump={hexOfText l.dump} app={if l.isUserApp then 1 else 0}"
+  | "wire" =>
+    let b := parseHex f[2]!
+    match (if f[1]! == "4" then decodeV4 b else decodeV6 b) with
+    | none => "SKIP illframed"
+    | some p => pktStr p (parseNat f[3]!)
+  | "fpall" =>
+    -- which fingerprint functions accept a well-framed packet (the small database has every section)
+    let b := parseHex f[2]!
+    match (if f[1]! == "4" then decodeV4 b else decodeV6 b) with
+    | none => "SKIP illframed"
+    | some p =>
+      let g (c : Bool) := if c then "ok" else "ERR_packet"
+      let sf := shouldFingerprint p.ip.isFragment p.tcp.type
+      let synish := p.tcp.type == F_SYN || p.tcp.type == (F_SYN ||| F_ACK)
+      s!"tcp={g (validTcp p.ip.isFragment p.tcp.type)} mtu={g (sf && decide (p.tcp.opts.mss > 0) && synish)} up={g (validUptime p.ip.isFragment p.tcp.type)}"
+  | "optwork" =>
+    let b := parseHex f[1]!
+    let o := parseOpts b (parseBool f[2]!)
+    s!"layout={o.layout.length} len={b.length}"
+  | "printsig" =>
+    let b := parseHex f[2]!
+    match (if f[1]! == "4" then decodeV4 b else decodeV6 b) with
+    | none => "SKIP illframed"
+    | some p =>
+      let k := pktSigOfPkt p 0
+      let text := renderTcpSig (sigOfPktSig k)
+      match parseTcpSig text with
+      | none => s!"{String.ofList text} -> ERR field"
+      | some s => s!"{String.ofList text} -> {sigStr s} -> {mtStr (tcpMatchPkt s k 35)}"
+  | "dumprt" =>
+    -- layout, pad, quirk mask, version text: print with the model of dump()/dump_quirks, parse back
+    let layout := parseNatList f[1]!
+    let pad := parseNat f[2]!
+    let q := QSet.ofMask (parseNat f[3]!)
+    let text := f[4]!.toList ++ ":64:0:*:*,*:".toList ++ dumpLayout layout pad ++ [':'] ++ dumpQuirks q ++ ":*".toList
+    match parseTcpSig text with
+    | none => s!"{String.ofList text} -> ERR field"
+    | some s => s!"{String.ofList text} -> [{natList s.layout}] pad={s.eolPad} q={s.quirks.toMask}"
   | op => s!"ERR unknown-op {op}"
 
 partial def loop (h : IO.FS.Stream) (out : IO.FS.Stream) : IO Unit := do
